@@ -29,7 +29,7 @@ ASSUMPTIONS = ['statements inside the standard library are not preemption points
                'every thread is a fresh thread or a worker serving requests one after another; the application object is the module default app (redirect needs it)']
 
 KINDS = ['echo', 'post', 'raise_resp', 'abort', 'crash', 'nf', 'na', 'big', 'redirect', 'gen', 'multipart', 'json', 'chunked', 'noname_json',
-         'chunked_form', 'echo10', 'redirect10', 'session', 'static', 'static_denied', 'logout', 'relogin', 'bigfile', 'extattr', 'static_range']
+         'chunked_form', 'echo10', 'redirect10', 'session', 'static', 'static_denied', 'logout', 'relogin', 'bigfile', 'extattr', 'static_range', 'badpath_tail', 'prepared']
 _APP = {}
 
 
@@ -160,6 +160,20 @@ def get_app():
         rs.set_cookie('sess', sess, secret='k')
         return 'session=%r' % (sess,)
 
+    _prepared = {}
+
+    def prepared():
+        # one answer prepared at start-up; every request sends a copy of it with a session cookie of its own
+        if 'r' not in _prepared:
+            _prepared['r'] = HTTPResponse('see you', 200, {'X-Prepared': 'yes'})
+            _prepared['r'].set_cookie('sid', 'anonymous', path='/')
+        m = rq.query.get('m')
+        mine = _prepared['r'].copy(cls=HTTPResponse)
+        mine.set_cookie('sid', 'session-of-' + m, path='/')
+        mine.headers['X-Prepared'] = 'for ' + m
+        mine.body = 'see you, ' + m
+        return mine
+
     def bigfile():
         # a file-like body of a few hundred KiB, streamed by the framework's own file wrapper (the server offers none)
         import io
@@ -173,7 +187,11 @@ def get_app():
         rq.cart = []
         rq.cart.append(rq.path)
         rq.cart.append(rq.who)
-        return 'who=%s cart=%r keys=%r' % (rq.who, rq.cart, sorted(k for k in rq.environ if k.startswith('ombott.request.ext.')))
+        # ... and the request as a mapping over its environ, the client address, the authentication pair
+        return 'who=%s cart=%r keys=%r map=%r addr=%r route=%r auth=%r' % (
+            rq.who, rq.cart, sorted(k for k in rq.environ if k.startswith('ombott.request.ext.')),
+            (rq['QUERY_STRING'], rq.get('HTTP_X_M'), len(rq) == len(rq.environ), sorted(k for k in rq.keys() if k.startswith('HTTP_X_')), 'PATH_INFO' in list(rq)),
+            rq.remote_addr, rq.remote_route, rq.auth)
 
     def logout():
         rs.delete_cookie('sid', path='/')
@@ -195,6 +213,7 @@ def get_app():
     app.route('/session', 'GET', session)
     app.route('/logout', 'GET', logout)
     app.route('/bigfile', 'GET', bigfile)
+    app.route('/prepared', 'GET', prepared)
     app.route('/extattr', 'GET', extattr)
     app.route('/relogin', 'GET', relogin)
     app.route('/mp', 'POST', multipart)
@@ -261,7 +280,15 @@ def make_env(kind, m):
         return make_environ('GET', '/echo/' + m, qs='m=' + m, headers={'X-M': m, 'Cookie': 'c=' + m, 'Host': m + '.example:8080'}, flavour='http10')
     if kind == 'redirect10':
         return make_environ('GET', '/redirect', qs='m=' + m, headers={'Host': m + '.example'}, flavour='http10')
-    if kind in ('logout', 'relogin', 'bigfile', 'extattr'):
+    if kind == 'extattr':
+        import base64
+        return make_environ('GET', '/extattr', qs='m=' + m, headers={'X-M': m, 'X-Forwarded-For': 'client-%s, proxy-%s' % (m, m),
+                                                                     'Authorization': 'Basic ' + base64.b64encode(('user-%s:pw-%s' % (m, m)).encode()).decode()},
+                            extra={'REMOTE_ADDR': 'addr-' + m, 'REMOTE_USER': 'ruser-' + m})
+    if kind == 'badpath_tail':
+        # a path cut inside a UTF-8 sequence at its very end: 400 for this request, nothing for anybody else
+        return make_environ('GET', '/x', raw_path='/echo/' + m + ('\xc3' if len(m) % 2 else '\xe6\x97'), qs='m=' + m, headers={'X-M': m})
+    if kind in ('logout', 'relogin', 'bigfile', 'prepared'):
         return make_environ('GET', '/' + kind, qs='m=' + m)
     if kind == 'static_range':
         # a slice out of the middle of a file of the request's own, streamed by the framework in pieces
@@ -292,6 +319,10 @@ def job(app, reqs):
     return run
 
 
+class BaselineBroken(Exception):
+    pass
+
+
 class Lab:
     def __init__(self):
         self.app = get_app()
@@ -315,7 +346,13 @@ class Lab:
             res, info = self.sched.run([job(self.app, [(kind, m)])], [])
             assert res[0][0] == 'ok', res
             status = res[0][1][0][0]
-            expect_ok = kind in ('echo', 'post', 'raise_resp', 'gen', 'multipart', 'json', 'chunked', 'redirect', 'chunked_form', 'echo10', 'redirect10', 'session', 'static', 'logout', 'relogin', 'bigfile', 'extattr', 'static_range')
+            expect_ok = kind in ('echo', 'post', 'raise_resp', 'gen', 'multipart', 'json', 'chunked', 'redirect', 'chunked_form', 'echo10', 'redirect10', 'session', 'static', 'logout', 'relogin', 'bigfile', 'extattr', 'static_range', 'prepared')
+            if expect_ok and not status.startswith(('2', '3')) and self.ctx is not None:
+                # these requests succeed in a process that has served nothing else (every kind is run on the unchanged tree):
+                # failing alone, after the earlier requests of this process, is itself dependence on other requests
+                self.ctx.violation(f'request-served-alone-fails-after-the-earlier-requests-of-the-process:{kind}',
+                                   f'{kind}/{m} served alone answers {status}: {res[0][1][0][2][:160]!r}', {'unit': {'kind': 'note', 'request': [kind, m]}})
+                raise BaselineBroken(kind)
             if expect_ok and not status.startswith(('2', '3')):
                 raise AssertionError(f'harness: kind {kind} is meant to succeed but answers {status} when served alone: {res[0][1][0][2][:200]!r}')
             # the reference itself must be clean: a request served alone cannot carry what earlier requests of this process brought
@@ -382,7 +419,7 @@ class Lab:
 
 PAIRS_QUICK = [('echo', 'echo'), ('echo', 'post'), ('raise_resp', 'echo'), ('crash', 'abort'), ('big', 'big'), ('nf', 'redirect'), ('gen', 'echo'), ('na', 'post'),
                ('multipart', 'json'), ('json', 'echo'), ('chunked', 'chunked'), ('chunked', 'post'), ('noname_json', 'noname_json'), ('multipart', 'multipart'),
-               ('chunked_form', 'chunked_form'), ('chunked_form', 'echo'), ('echo10', 'echo10'), ('redirect10', 'echo10'), ('session', 'session'), ('static', 'static_denied'), ('static', 'static'), ('logout', 'relogin'), ('relogin', 'relogin'), ('bigfile', 'bigfile'), ('gen', 'gen'), ('gen', 'bigfile'), ('extattr', 'extattr'), ('static_range', 'static_range'), ('static_range', 'static')]
+               ('chunked_form', 'chunked_form'), ('chunked_form', 'echo'), ('echo10', 'echo10'), ('redirect10', 'echo10'), ('session', 'session'), ('static', 'static_denied'), ('static', 'static'), ('logout', 'relogin'), ('relogin', 'relogin'), ('bigfile', 'bigfile'), ('gen', 'gen'), ('gen', 'bigfile'), ('extattr', 'extattr'), ('static_range', 'static_range'), ('static_range', 'static'), ('badpath_tail', 'echo'), ('badpath_tail', 'badpath_tail'), ('prepared', 'prepared')]
 
 
 def one_preemption(ctx, lab, a, b, stride=1):
@@ -425,7 +462,10 @@ def pair_unit(ctx, unit):
     lab = Lab()
     try:
         for a, b in unit['pairs']:
-            na, nb = one_preemption(ctx, lab, a, b, unit.get('stride', 1))
+            try:
+                na, nb = one_preemption(ctx, lab, a, b, unit.get('stride', 1))
+            except BaselineBroken:
+                continue
             ctx.sample({'pair': [a, b], 'statements_per_request': [na, nb], 'schedules': 'every k in 0..n: first thread runs k statements, the other runs to completion, the first resumes'})
     finally:
         lab.close()
@@ -435,7 +475,10 @@ def two_unit(ctx, unit):
     lab = Lab()
     try:
         a, b = unit['pair']
-        na, nb = two_preemptions(ctx, lab, a, b, unit['stride'], unit['part'], unit['parts'])
+        try:
+            na, nb = two_preemptions(ctx, lab, a, b, unit['stride'], unit['part'], unit['parts'])
+        except BaselineBroken:
+            return
         ctx.sample({'pair': [a, b], 'two_preemptions': f'k1 in 1..{na} (this shard: every {unit["parts"]}th), k2 in 1..{nb}, stride {unit["stride"]}'})
         # this unit records no switch points; reach counters come from the pair units
     finally:
@@ -453,7 +496,10 @@ def random_unit(ctx, unit):
                 reqs = [(rng.choice(KINDS), 'M%dx%d' % (t, j) + 'QZ'[t % 2] * 3) for j in range(rng.choice([1, 1, 2]))]
                 thread_reqs.append(reqs)
             lab.ctx = ctx
-            total = sum(lab.baseline(k, m)[1] for reqs in thread_reqs for k, m in reqs)
+            try:
+                total = sum(lab.baseline(k, m)[1] for reqs in thread_reqs for k, m in reqs)
+            except BaselineBroken:
+                continue
             segs = []
             nseg = rng.randint(2, 14)
             for _ in range(nseg):
